@@ -58,6 +58,7 @@ func main() {
 	abs, _ := filepath.Abs(*repo)
 	main, lerr := Load(LoadOpts{Repo: abs, Tags: defaultTags})
 	var normNotes []string
+	asWritten := main
 	if lerr == nil && !*nonorm {
 		// anchors: every function a rule of any property asks for by name stays a function
 		main.collect = map[*types.Func]bool{}
@@ -116,6 +117,37 @@ func main() {
 						continue
 					}
 					runOne(res, p2, id, *tier, fn)
+				}
+				// second view (diagnostic only): the same rules on the program as written; an obligation
+				// that holds in the helper-expanded view but not as written depends on code inside a
+				// helper — recorded, never a verdict
+				if asWritten != main {
+					c2 := NewCtx(asWritten, id, "thorough-as-written")
+					func() {
+						defer func() { recover() }()
+						fn(c2)
+					}()
+					bad := map[string]bool{}
+					for _, o := range c2.Obls {
+						if o.Verdict != Discharged {
+							bad[o.ID()] = true
+						}
+					}
+					okNorm := map[string]bool{}
+					for _, o := range res.Obls {
+						if o.Verdict == Discharged {
+							okNorm[o.ID()] = true
+						}
+					}
+					var diff []string
+					for k := range bad {
+						if okNorm[k] {
+							diff = append(diff, k)
+						}
+					}
+					sort.Strings(diff)
+					res.ViewDiff = diff
+					res.Notes = append(res.Notes, fmt.Sprintf("as-written view: %d obligations evaluated, %d of them hold only in the helper-expanded view", len(c2.Obls), len(diff)))
 				}
 				sensitivity(res, main, id, fn)
 			}
